@@ -360,3 +360,43 @@ def _flatten_cond(fn, c, truth):
     if d.op in ("trunc", "zext"):
         return _flatten_cond(fn, d.ops[0], truth)
     return []
+
+
+def local_copies(fn, P, reg):
+    """registers that hold the same value as `reg` after a round trip through local memory: the value is stored into a local
+    slot (or a field of a local struct) that receives no other value, and loaded back"""
+    allocas = {i.res for i in fn.instrs() if i.op == "alloca"}
+
+    def rooted_local(addr):
+        v = addr
+        hops = 0
+        while v.kind == "reg" and hops < 8:
+            if v.v in allocas:
+                return True
+            d = fn.defs.get(v.v)
+            if d is None or d.op not in ("getelementptr", "bitcast"):
+                return False
+            v = d.ops[0]
+            hops += 1
+        return False
+    regs = {reg}
+    stores = [i for i in fn.instrs() if i.op == "store" and rooted_local(i.ops[1])]
+    loads = [i for i in fn.instrs() if i.op == "load" and rooted_local(i.ops[0])]
+    bypath = {}
+    for s_ in stores:
+        bypath.setdefault(P.path(s_.ops[1]), []).append(s_)
+    changed = True
+    while changed:
+        changed = False
+        # casts
+        for i in fn.instrs():
+            if i.op == "bitcast" and i.res not in regs and i.ops[0].kind == "reg" and i.ops[0].v in regs:
+                regs.add(i.res)
+                changed = True
+        for path, sts in bypath.items():
+            if all(x.ops[0].kind == "reg" and x.ops[0].v in regs for x in sts):
+                for ld in loads:
+                    if ld.res not in regs and P.path(ld.ops[0]) == path:
+                        regs.add(ld.res)
+                        changed = True
+    return regs
